@@ -1723,7 +1723,7 @@ def run(ck):
             if "n" in o and o["n"] > 2 * dev["mp"] + 1 and o["n"] > 20:
                 o["n"] = rng.choice([dev["mp"] + 1, 2 * dev["mp"] + 1, 2 * dev["mp"]])
                 if "addr" in o:
-                    o["addr"] = min(o["addr"], dev["mem_size"] - o["n"])
+                    o["addr"] = max(0, min(o["addr"], dev["mem_size"] - o["n"]))  # (fuse_* lengths are not tied to the memory size)
         if rng.random() < 0.15:
             dev["faults"] = [(rng.randrange(0, len(ops) + 1), rng.random() < 0.5, rng.choice(STATUSES))]
         case = {"cfg": cfg, "dev": dev, "ops": ops}
